@@ -11,9 +11,9 @@ import (
 // C33 Nothing larger than the configured limits is ever sent.
 func init() {
 	register(&Rule{
-		ID: "C33",
+		ID:      "C33",
 		Explain: "Decides the structural clause of C33: every effect of UserEvent (local handling, broadcast enqueue), of Query (registration, local handling, enqueue) and every SendToAddress of a locally built response is edge-dominated by the size comparisons the property names, on the value that is actually sent (same access path / SSA value), and Create rejects a configured user-event limit above the hard limit. Holds for every input because it is a statement about all CFG paths. Does not decide what memberlist does with the bytes.",
-		Run: runC33,
+		Run:     runC33,
 		Mutants: []Mutant{
 			{Name: "rename-locals", Equivalent: true, Regexp: true, File: "serf/serf.go", Func: "func (s *Serf) handleQuery(", Old: `\b(ack|raw|rebroadcast|seen)\b`, New: "${1}Renamed"},
 			{Name: "userevent-drop-hard-limit-after", File: "serf/serf.go", Func: "func (s *Serf) UserEvent(", Old: "if len(raw) > UserEventSizeLimit {", New: "if false && len(raw) > UserEventSizeLimit {", Expect: "R1"},
